@@ -810,3 +810,181 @@ pub fn classes_c03(c: &Case) -> Vec<&'static str> {
     }
     out
 }
+
+// ------------------------------------------------------------------ C06 oracle
+/// C06 judged on the implementation's behaviour alone. Bounds come from the property statement;
+/// `TICK_MS` is the documented slack of the cached clock (deadlines are computed from a clock that
+/// is refreshed every 500 ms), so "in time" = before `deadline - TICK_MS`, "late" = after `deadline`.
+pub fn oracle_c06(c: &Case, o: &RunOut) -> Result<(), String> {
+    let tr = truth(c);
+    let n = o.polls.len();
+    if n == 0 {
+        return Ok(());
+    }
+    let t = &tr.t;
+    let heads_at = |k: usize| o.polls[k].wire.iter().filter(|w| matches!(w, Wire::Head { .. })).cloned().collect::<Vec<_>>();
+    let starts_at = |k: usize| o.polls[k].log.iter().filter(|e| matches!(e, LogEv::Start { .. })).count();
+    let any_bad = tr.bad_round.is_some();
+    let first_rd = c.rounds.iter().position(|r| r.rd != 0);
+    let first_sig = if c.cfg.signal { c.rounds.iter().position(|r| r.signal) } else { None };
+    let finished_at = o.polls.iter().position(|p| p.result != 0);
+    let unblocked = |k: usize| !c.rounds[k].wblock;
+    let mut shutdown_known: Option<(u64, String)> = None; // earliest time at which SHUTDOWN is certainly entered
+    let mut note_sd = |tm: u64, why: String| {
+        if shutdown_known.as_ref().map_or(true, |(x, _)| tm < *x) {
+            shutdown_known = Some((tm, why));
+        }
+    };
+
+    // (a) slow first head
+    if c.cfg.req_to > 0 {
+        let limit = t[0] + c.cfg.req_to;
+        let head_t = tr.head_round.first().copied().flatten().map(|r| t[r]);
+        let undisturbed = |upto: usize| !any_bad && first_rd.map_or(true, |r| r > upto) && first_sig.map_or(true, |r| r > upto);
+        if head_t.map_or(true, |h| h > limit) {
+            // the head is late (or never comes): 408 + close at the first poll after the deadline
+            if let Some(k) = (0..n).find(|&k| t[k] > limit) {
+                if undisturbed(k) && finished_at.map_or(true, |f| f >= k) {
+                    note_sd(t[k], format!("408 due at poll {k}"));
+                    if let Some(kk) = (k..n).find(|&j| unblocked(j)) {
+                        let seen = (0..=kk).any(|j| heads_at(j).iter().any(|w| matches!(w, Wire::Head { status: 408, .. })));
+                        if !seen {
+                            return Err(format!("first head incomplete at t={limit} (first poll {} + timeout {}), but no 408 was written by poll {kk} (t={})", t[0], c.cfg.req_to, t[kk]));
+                        }
+                        let bad = (0..=kk).flat_map(|j| heads_at(j)).find(|w| matches!(w, Wire::Head { status: 408, .. }) && !closing(w));
+                        if let Some(w) = bad {
+                            return Err(format!("408 without close semantics: {w:?}"));
+                        }
+                    }
+                    if (0..n).any(|j| starts_at(j) > 0) {
+                        return Err("a request was dispatched although the first head missed the request timeout".into());
+                    }
+                }
+            }
+        } else if let Some(h) = head_t {
+            if h + TICK_MS < limit && !any_bad {
+                if (0..n).any(|j| heads_at(j).iter().any(|w| matches!(w, Wire::Head { status: 408, .. }))) {
+                    return Err(format!("408 written although the first head was complete at t={h}, well before t={limit}"));
+                }
+            }
+        }
+    }
+
+    // idle keep-alive points: after poll k-1 everything that arrived was answered and flushed with keep-alive semantics
+    let mut arrived = 0usize; // complete request heads delivered so far
+    let mut answered = 0usize;
+    let mut last_closing = false;
+    let mut part_open = false;
+    let mut body_open = false;
+    let mut idle_prev = false;
+    for k in 0..n {
+        // (b) keep-alive decision at poll k, judged from the idle state after poll k-1
+        if let (true, true) = (idle_prev, c.cfg.ka > 0) {
+            let ka = c.cfg.ka as u64;
+            let gap_expired = t[k] > t[k - 1] + ka;
+            let brings_req = c.rounds[k].arrive.first().map_or(false, |i| matches!(i, Item::Req { .. }));
+            let sig_now = first_sig.map_or(false, |s| s <= k);
+            if gap_expired && !sig_now {
+                note_sd(t[k], format!("keep-alive expired at poll {k}"));
+                if starts_at(k) > 0 {
+                    return Err(format!("poll {k} (t={}): request dispatched although the keep-alive time ({} ms since the previous poll at t={}) had elapsed", t[k], ka, t[k - 1]));
+                }
+                let must_be_done = c.cfg.disc_to == 0 || (unblocked(k) && c.rounds[k].sd == 0);
+                if must_be_done && o.polls[k].result == 0 {
+                    return Err(format!("poll {k} (t={}): idle keep-alive connection still open {} ms after the previous poll (keep-alive {} ms)", t[k], t[k] - t[k - 1], ka));
+                }
+            } else if brings_req && t[k] + TICK_MS < t[k - 1] + ka && !sig_now && c.rounds[k - 1].rd == 0 && first_rd.map_or(true, |r| r >= k) {
+                if starts_at(k) == 0 {
+                    return Err(format!("poll {k} (t={}): request arrived {} ms after the previous poll, within keep-alive {} ms, but was not dispatched", t[k], t[k] - t[k - 1], ka));
+                }
+            }
+        }
+        for it in &c.rounds[k].arrive {
+            match it {
+                Item::Req { i } => {
+                    arrived += 1;
+                    part_open = false;
+                    body_open = c.reqs[*i].body != 0;
+                }
+                Item::Part { .. } => part_open = true,
+                Item::End => body_open = false,
+                Item::Bad => part_open = true,
+                Item::Data { .. } => {}
+            }
+        }
+        for w in heads_at(k) {
+            if matches!(w, Wire::Head { status: 200, .. }) {
+                answered += 1;
+            }
+            last_closing = closing(&w);
+        }
+        let flushed = o.polls[k].log.iter().filter(|e| matches!(e, LogEv::Done { .. })).count() == heads_at(k).iter().filter(|w| matches!(w, Wire::Head { status: 200, .. })).count();
+        idle_prev = o.polls[k].result == 0
+            && arrived > 0
+            && arrived == answered
+            && !last_closing
+            && !part_open
+            && !body_open
+            && flushed
+            && unblocked(k)
+            && c.rounds[..=k].iter().all(|r| r.rd == 0)
+            && first_sig.map_or(true, |s| s > k);
+        if o.polls[k].shutdown_calls > 0 {
+            note_sd(t[k], format!("poll_shutdown called at poll {k}"));
+        }
+    }
+
+    // (c) with a disconnect timeout, shutdown never outlasts it
+    if c.cfg.disc_to > 0 {
+        if let Some((tsd, why)) = &shutdown_known {
+            if let Some(k) = (0..n).find(|&k| t[k] > tsd + c.cfg.disc_to) {
+                if finished_at.map_or(true, |f| f > k) {
+                    return Err(format!("shutdown began by t={tsd} ({why}) but the connection is still open at poll {k} (t={}), disconnect timeout {} ms", t[k], c.cfg.disc_to));
+                }
+            }
+        }
+    }
+
+    // (d) graceful shutdown
+    if let Some(ps) = first_sig {
+        if ps < n {
+            for k in ps..n {
+                if starts_at(k) > 0 {
+                    return Err(format!("poll {k}: request dispatched after the shutdown signal (poll {ps})"));
+                }
+            }
+            // heads of responses whose handler completed at or after the signal announce close
+            let heads: Vec<(usize, Wire)> = (0..n).flat_map(|k| heads_at(k).into_iter().map(move |w| (k, w))).filter(|(_, w)| matches!(w, Wire::Head { status: 200, .. })).collect();
+            let mut j = 0usize;
+            for k in 0..n {
+                for e in &o.polls[k].log {
+                    if let LogEv::Done { i } = e {
+                        if k >= ps {
+                            match heads.get(j) {
+                                Some((_, w)) if !closing(w) => return Err(format!("response to request {i}, completed at poll {k} after the shutdown signal (poll {ps}), does not announce close: {w:?}")),
+                                None if (k..n).any(|q| unblocked(q)) && finished_at.map_or(true, |f| (k..=f).any(|q| unblocked(q))) => {
+                                    return Err(format!("request {i} was in flight at the shutdown signal and completed at poll {k}, but its response was never written"))
+                                }
+                                _ => {}
+                            }
+                        }
+                        j += 1;
+                    }
+                }
+            }
+        }
+    }
+    Ok(())
+}
+
+/// F14 class of a case: a disconnect timeout is configured and at some round the peer blocks
+/// writes or `poll_shutdown` (predicate on the input only)
+pub fn classes_c06(c: &Case) -> Vec<&'static str> {
+    let mut out = vec![];
+    if c.rounds.iter().any(|r| r.wblock || r.sd == 1) {
+        if c.cfg.disc_to > 0 {
+            out.push("F14-shutdown-unbounded");
+        }
+    }
+    out
+}
